@@ -256,7 +256,7 @@ def run(ctx: Ctx) -> None:
 
     # ---- inputs of other dtypes: the rounding always runs on a float32 copy, so a value representable in float16 /
     #      bfloat16 / float64 gives, for every draw, the float32 result cast to that dtype
-    for (E, M, sb) in ((4, 3, 3), (2, 0, 2), (5, 2, 4), (3, 1, 5), (2, 7, 3), (3, 7, 2), (4, 10, 3), (2, 10, 4)):
+    for (E, M, sb) in ((4, 3, 3), (2, 0, 2), (5, 2, 4), (3, 1, 5), (2, 7, 3), (3, 7, 2), (4, 10, 3), (2, 10, 4), (6, 2, 3), (7, 3, 2)):
         f = FPFormat(E, M, "stochastic", srbits=sb)
         R = 1 << sb
         B_ = 2 ** (E - 1)
@@ -268,7 +268,11 @@ def run(ctx: Ctx) -> None:
             probe_ = torch.tensor([2.0 ** (2 ** E - 1 - B_) * (2 - 2.0 ** -M), 2.0 ** (1 - B_ - M), 2.0 ** (1 - B_) * (1 + 2.0 ** -M)],
                                   dtype=torch.float64)
             if not torch.equal(probe_.to(dt_).to(torch.float64), probe_):
-                continue
+                # wide-exponent formats on float16 tensors: the format's extremes do not fit float16, but every float16 value of
+                # moderate size lies in the format's normal range and its two neighbours (<= M+1 <= 11 significant bits, same
+                # binade or the next) are float16 values again - the clause about non-float32 inputs applies to them
+                if not (dt_ == torch.float16 and E >= 6 and M <= 10):
+                    continue
             xs_ = x1.to(dt_).to(torch.float32)          # keep only what the dtype can hold
             key = {"E": E, "M": M, "srbits": sb, "input_dtype": str(dt_)}
 
